@@ -234,7 +234,13 @@ Inductive op :=
 | OMapAddSame (n : Z)       (* ValueMap::add<T>(&map, name n, the pointer the entry already holds) *)
 | OMapClear
 | OMapGet (n ty : Z)
-| OParse (n v ok : Z).      (* NotifiedValue<T_n>::parse(name n, text of v) ; ok = 0: the parser rejects *)
+| OParse (n v ok : Z)       (* NotifiedValue<T_n>::parse(name n, text of v) ; ok = 0: the parser rejects *)
+| OAdoptNull (i ty how : Z). (* h[i]->assimilate((T* )0); observe (non-empty, type() == typeid(T), extract_raw() == 0); then leave the
+                               'adopted null' state by  how mod 4 = 0: clear()  1: surrender()  2: delete h[i] (a fresh holder takes its place)
+                               3: *h[i] = ValueStore().  The state 'adopted null' (vptr_ = &VTable<T>::vtable_s, value_ = 0: non-empty, typed,
+                               NO object) exists only inside this step: assimilate clears the old content first, no object is constructed or
+                               destroyed for the null pointer, and each of the four ways out leaves vptr_ == 0.  (Copying such a holder would
+                               run T's copy constructor on *(T* )0 - undefined, not part of the alphabet.) *)
 
 Section Run.
 Variable H M : nat.          (* number of client holders / of map names *)
@@ -345,6 +351,8 @@ Definition step (s : st) (o : op) : list Z * st :=
           | None => ([1], set_err s2)
           end
       else ([], s)
+  | OAdoptNull i ty _ =>
+      if okh i && okty ty then ([1; ty; 1], p_clear (hslot i) s) else ([], s)
   end.
 
 (* ---------- observation ---------- *)
@@ -413,6 +421,7 @@ Fixpoint decode_ops (fuel : nat) (l : list Z) : list op :=
       | 15 :: r => OMapClear :: decode_ops f r
       | 16 :: n :: ty :: r => OMapGet n ty :: decode_ops f r
       | 17 :: n :: v :: ok :: r => OParse n v ok :: decode_ops f r
+      | 18 :: i :: ty :: how :: r => OAdoptNull i (static_ty ty) how :: decode_ops f r   (* 26: (PBase* )0 *)
       | _ => []
       end
   end.
